@@ -15,8 +15,10 @@ func register(r *mc.Registry) {
 		panic("C20 must be built with the overlay (file OVERLAY): the concurrent scenarios need the library's sync.Mutex as a scheduling point")
 	}
 	maxLen := 3
+	maxUnguarded = 0
 	if r.Thorough() {
 		maxLen = 4
+		maxUnguarded = 1
 	}
 	inputs := allInputs(maxLen)
 	all := append(append([]producer{}, producers...), hamtProducers()...)
@@ -73,6 +75,7 @@ func register(r *mc.Registry) {
 	r.Rule = "proto/*: execution = (producer, its parameters, input over {0,1,2} up to the length bound, one string over {HasNext, Next} of length 2*len+4 in which Next follows a true HasNext, or is a blind Next once the reference is exhausted); every such string is run (large hash tries: the bounded family h1/h2 HasNext calls before odd/even elements plus the exhausted tail). two-sided/*: every interleaving of the two sides' calls up to 2*(len(left)+len(right))+extra calls with a bounded number of repeated HasNext calls. conc/*: every interleaving (sleep sets; a preemption bound where the bounds say so) of two draining threads at the library's Mutex.Lock/Unlock and at scheduling points inside the shared source's HasNext/Next. non-trivial = the pattern repeated a HasNext and consumed an element, or called Next on the exhausted iterator (two-sided: at least two switches between the sides and two elements delivered; conc: a context switch between started threads); distinct = distinct (elements consumed, blind Next calls, repeated HasNext calls, reference sequence)"
 	r.Assumptions = []string{
 		"Next on an exhausted iterator: any panic value is accepted",
+		"Next without a preceding HasNext while elements remain is a legal use (every iterator of the library guards its own next) and must return the next element; failures there carry the key suffix -unguarded",
 		"iterators over Go maps, fp.UnsafeGoMap/Set, immutable and mutable maps/sets: any order, compared as multisets; the driver's choices and observations do not depend on the order",
 		"applicative plumbing (Ap, Map2, Flap*, FlapMap, Method*): the reference sequence is the canonical drain (for HasNext { Next }) of a second fresh instance; only independence of the call pattern is demanded there",
 		"the zero-value Iterator passed to library functions must give what iterator.Empty gives (same call sites call only its methods)",
@@ -81,8 +84,10 @@ func register(r *mc.Registry) {
 	r.Extra["bounds"] = map[string]any{
 		"alphabet": []int{0, 1, 2}, "max_input_len": maxLen, "pattern_length": "2*len+4 (Generate: 7)",
 		"producers": names, "producer_count": len(names),
-		"concat_state_family": map[string]any{"X,Y": shapeNames(concatShapes), "pipelines": famNames, "inputs": "up to length 3", "patterns": "every H/N string when the output has at most 3 elements, the bounded family (h1/h2 HasNext calls before odd/even elements, then the exhausted tail) otherwise", "note": "every instance is built from fresh iterator values; no iterator value is used twice"},
-		"zero_value_methods":  zeroNames(zeroMethods), "zero_value_as_argument": zeroNames(zeroArgs),
+		"package_iterator_exported_functions": iteratorFunctionCoverage(),
+		"call_strings":                        "every string over {HasNext, Next} of length 2*len+4 in which Next follows a true HasNext or hits the exhausted iterator (thorough: plus one Next without a preceding HasNext anywhere); and the family in which each element is taken by a Next with or without a preceding HasNext (all 2^len subsets: Next;Next, HasNext;Next;Next, ...) followed by the exhausted tail; bounded family for long outputs: 0..3 HasNext calls before odd/even elements",
+		"concat_state_family":                 map[string]any{"X,Y": shapeNames(concatShapes), "pipelines": famNames, "inputs": "up to length 3", "patterns": "every H/N string when the output has at most 3 elements, the bounded family (h1/h2 HasNext calls before odd/even elements, then the exhausted tail) otherwise", "note": "every instance is built from fresh iterator values; no iterator value is used twice"},
+		"zero_value_methods":                  zeroNames(zeroMethods), "zero_value_as_argument": zeroNames(zeroArgs),
 		"two_sided_max_input_len": twoLen, "two_sided_extra_calls": extra, "two_sided_max_repeated_hasnext": red,
 		"hamt_sizes": hamtSizes, "hamt_hashers": hasherNames(),
 		"concurrent_inputs": concInputs,
@@ -90,7 +95,7 @@ func register(r *mc.Registry) {
 	r.Extra["uncovered"] = []string{
 		"iterator-returning functions outside the packages named by the property scope: either.Traverse*, statet.Traverse*, future.Traverse*/SequenceIterator, show and naming_case internals",
 		"iterator.Flap4..Flap9 and Method5..Method9: generated from the same template as Flap3/Method3/Method4, which are covered",
-		"Next called without a preceding true HasNext while elements remain (not a call pattern the property quantifies over)",
+		"Next without a preceding HasNext combined with repeated HasNext calls in one string: quick runs them in separate families, thorough allows one such Next inside the full strings",
 		"element types other than int and tuples of int",
 		"more than two threads; two threads on the same side of Duplicate (the property gives one consumer per side)",
 	}
